@@ -213,9 +213,10 @@ def parseGot (n : Names) (s : String) : Option (Res × String) :=
   | [r, e] => (if r == "-" then some [] else parseKV n r).map fun x => (x, e)
   | _ => none
 
-/-- one step of the judge on the implementation's own observation. -/
-def judgeStep (cfgs : List JCfg) (snaps : List Bool) (m : MJ) (c : Nat) (op : Op) (obsRes : String) (n : Names) : MJ × List String :=
-  let cfg := cfgs.getD c ⟨false, 0⟩
+/-- one step of the judge on the implementation's own observation; `held` = the keys the client's
+in-memory layer held just before the operation (the layer's key list as last observed). -/
+def judgeStep (cfgs : List JCfg) (snaps : List Bool) (m : MJ) (c : Nat) (held : List Key) (op : Op) (obsRes : String) (n : Names) : MJ × List String :=
+  let cfg := cfgs.getD c ⟨false, 0, []⟩
   let j : JSt := ⟨m.specs.getD c [], m.V, m.W⟩
   let fin (q : JSt × List String) (m : MJ) : MJ × List String :=
     ({ m with specs := m.specs.set c q.1.spec, V := q.1.V, W := q.1.W }, q.2)
@@ -224,35 +225,45 @@ def judgeStep (cfgs : List JCfg) (snaps : List Bool) (m : MJ) (c : Nat) (op : Op
     match parseGot n obsRes with
     | none => (m, ["unparsable-get-result"])
     | some (res, e) =>
-      let q := jstep cfg j op (.got res (e == "1"))
-      -- corrupt entries: dropped and reported (exact when no in-memory layer can hide the backend)
+      let q := jstep cfg held j op (.got res (e == "1"))
+      -- corrupt entries: dropped and reported. A read reaches the corrupt backend entry when the
+      -- in-memory layer (if any) does not answer it from a copy the client stored.
+      let isLocal (k : Key) : Bool := match j.spec.get k with
+        | .present _ _ dW _ => servedLocally cfg held j.W dW k
+        | _ => false
       let tainted := keys.filter fun k => m.taint.any fun t => t.1.1 == c && t.1.2 == k
-      let liveTainted := keys.filter fun k => m.taint.any fun t => t.1.1 == c && t.1.2 == k && m.V < t.2
-      let r1 := if !cfg.hasLru ∧ snaps.getD c false ∧ liveTainted.any (fun k => (aGet k res).isSome) then ["corrupt-entry-returned"] else []
-      let r2 := if !cfg.hasLru ∧ snaps.getD c false ∧ !liveTainted.isEmpty ∧ e == "0" then ["corrupt-entry-not-reported"] else []
+      let reached := keys.filter fun k => !isLocal k && m.taint.any fun t => t.1.1 == c && t.1.2 == k && m.V < t.2
+      let r1 := if snaps.getD c false ∧ reached.any (fun k => (aGet k res).isSome) then ["corrupt-entry-returned"] else []
+      let r2 := if snaps.getD c false ∧ !reached.isEmpty ∧ e == "0" then ["corrupt-entry-not-reported"] else []
       let r3 := if e == "1" ∧ tainted.isEmpty then ["error-without-corrupt-entry"] else []
       fin (q.1, q.2 ++ r1 ++ r2 ++ r3) m
   | .add k _ _ =>
-    if obsRes == "ok" then fin (jstep cfg j op (.added true)) (m.untaint c k)
-    else if obsRes == "ns" then fin (jstep cfg j op (.added false)) m
+    -- a foreign blob written over the key decides whether the backend holds a live entry
+    let live := match m.taint.find? (fun t => t.1.1 == c && t.1.2 == k) with
+      | some t => decide (m.V < t.2)
+      | none => liveV j k
+    if obsRes == "ok" then
+      fin ((jstep cfg held j op (.added true)).1, if live then ["add-accepted-over-live-entry"] else []) (m.untaint c k)
+    else if obsRes == "ns" then (m, if live then [] else ["add-refused-without-live-entry"])
     else (m, ["add-unexpected-error"])
   | .set k _ _ | .setAsync k _ _ | .del k =>
     let r := if obsRes == "-" then [] else ["unexpected-error"]
-    let q := jstep cfg j op .none
+    let q := jstep cfg held j op .none
     fin (q.1, q.2 ++ r) (m.untaint c k)
   | .setMulti data _ =>
-    fin (jstep cfg j op .none) (data.foldl (fun m kv => m.untaint c kv.1) m)
+    fin (jstep cfg held j op .none) (data.foldl (fun m kv => m.untaint c kv.1) m)
   | .raw k _ bytes ttl =>
     let m' := m.untaint c k
     if (snappyDecode bytes).isNone then ({ m' with taint := ((c, k), m.V + ttl) :: m'.taint }, [])
     else (m', ["raw-write-decodable(harness)"])
-  | _ => fin (jstep cfg j op .none) m
+  | _ => fin (jstep cfg held j op .none) m
 
 /-! ### C19.ops -/
 
 structure Acc where
   sys : Sys
   mj : MJ
+  held : List (List Key)   -- per client: keys of its in-memory layer as last observed on the implementation
   diff : Option String
   judge : List String
   hits : Nat
@@ -276,7 +287,11 @@ def handleOps (f : List String) : String × String × String :=
         let ops := opsS.splitOn ";"
         let obs := obsS.splitOn ";"
         if ops.length != obs.length then ("bad-obs-count", "-", "-") else
-        let acc0 : Acc := ⟨sys0, ⟨List.replicate nCl [], 0, 0, []⟩, none, [], 0, 0, 0⟩
+        let lruShared := sys0.low.any isLru
+        -- two "different" versions that are equal: the clients share their keys by construction and
+        -- the single-client clauses do not apply (never generated; judged as not applicable)
+        let sameVer := toks.any fun t => match t with | .ver a (some b) => a == b | _ => false
+        let acc0 : Acc := ⟨sys0, ⟨List.replicate nCl [], 0, 0, []⟩, List.replicate nCl [], none, [], 0, 0, 0⟩
         let acc := (ops.zip obs).foldl (fun (a : Acc) (oo : String × String) =>
           match parseOp n oo.1 with
           | none => { a with diff := a.diff <|> some s!"op{a.idx}:unparsable", idx := a.idx + 1 }
@@ -290,10 +305,13 @@ def handleOps (f : List String) : String × String × String :=
             let isClock := kind == "tv" ∨ kind == "tw" ∨ kind == "tb"
             let mObs := if isClock then "-" else renderObs n kind r.2 (r.1.path c)
             let d := if mObs == oo.2 then a.diff else a.diff <|> some s!"op{a.idx}:model={mObs}"
-            let jq := judgeStep cfgs snaps a.mj c op resS n
+            let jq := judgeStep cfgs snaps a.mj c (a.held.getD c []) op resS n
+            let held' := if isClock then a.held
+              else if lruShared then a.held.map fun _ => hs.headD []
+              else a.held.set c (hs.headD [])
             let isHit := match r.2 with | .got res _ => !res.isEmpty | _ => false
             let isGet := match r.2 with | .got _ _ => true | _ => false
-            { sys := r.1, mj := jq.1, diff := d, judge := a.judge ++ jq.2.map (fun x => s!"op{a.idx}:{x}"),
+            { sys := r.1, mj := jq.1, held := held', diff := d, judge := a.judge ++ jq.2.map (fun x => s!"op{a.idx}:{x}"),
               hits := a.hits + (if isHit then 1 else 0), gets := a.gets + (if isGet then 1 else 0), idx := a.idx + 1 }) acc0
         let mDump := renderDump n acc.sys
         let diff := acc.diff <|> (if mDump == dumpS then none else some ("dump:model=" ++ mDump))
@@ -302,7 +320,7 @@ def handleOps (f : List String) : String × String × String :=
         let kinds := String.ofList (toks.map fun t => match t with | .lru .. => 'L' | .ver .. => 'V' | .snap => 'S')
         let clk := if (ops.any (·.startsWith "tv")) ∨ (ops.any (·.startsWith "tw")) then "split" else if ops.any (·.startsWith "tb") then "one" else "none"
         let tags := s!"ops stack={if kinds == "" then "none" else kinds} cl={nCl} n={if ops.length < 10 then "<10" else if ops.length < 40 then "<40" else "40+"} hits={min acc.hits 3} clk={clk}"
-        (diff.getD "-", if acc.judge.isEmpty then "-" else ",".intercalate acc.judge, tags)
+        (diff.getD "-", if acc.judge.isEmpty ∨ sameVer then "-" else ",".intercalate acc.judge, tags)
       | _, _, _ => ("bad-input", "-", "-")
     | _ => ("bad-field1", "-", "-")
   | _ => ("bad-fields", "-", "-")
@@ -347,6 +365,19 @@ def sortedBy (le : Bytes → Bytes → Bool) : List Bytes → Bool
 def isPerm (a b : List Bytes) : Bool :=
   a.length == b.length && a.all (fun x => a.count x == b.count x)
 
+/-- `natOrdered` of the model with the n² comparisons computed once (the model's definition is the
+specification used in the theorems; it recomputes `natLess` in its triple loop). The handler
+cross-checks the two on every list of at most 6 names. -/
+def natOrderedFast (l : List Bytes) : Bool :=
+  let cs := (l.map chunkify).toArray
+  let n := cs.size
+  let t : Array (Array Bool) := cs.map fun a => cs.map fun b => natLessChunks a b
+  let names := l.toArray
+  (List.range n).all fun i => (List.range n).all fun j =>
+    let lij := t[i]![j]!
+    (names[i]! == names[j]! || (lij != t[j]![i]!)) &&
+    (!lij || (List.range n).all fun k => !t[j]![k]! || names[i]! == names[k]! || t[i]![k]!)
+
 set_option linter.unusedVariables false in
 def handlePick (f : List String) : String × String × String :=
   match f with
@@ -356,28 +387,43 @@ def handlePick (f : List String) : String × String × String :=
       match hexList? aS, hexList? bS, hexDecode xS, hexList? keysS, (hashS.splitOn ",").mapM String.toNat?,
             hexList? s1S, hexList? s2S, hexList? s3S with
       | some a, some b, some x, some keys, some hashes, some s1, some s2, some s3 =>
-        -- model
-        let mSorted := natSort a
-        let mSorted3 := natSort (b ++ [x])
-        let mp1 := hashes.map fun h => match pick nextFloat mSorted (UInt64.ofNat h) with | some s => hexEncode s | none => "err"
-        let mp3 := hashes.map fun h => match pick nextFloat mSorted3 (UInt64.ofNat h) with | some s => hexEncode s | none => "err"
-        let model := [renderKeys mSorted |>.replace "~" "-", renderKeys (natSort b) |>.replace "~" "-", renderKeys mSorted3 |>.replace "~" "-", ",".intercalate mp1, ",".intercalate mp3]
-        let diff := if model == [s1S, s2S, s3S, p1S, p3S] then "-" else "model=" ++ " ".intercalate model
+        -- model: natural sort + jump hash. When natsort's comparison does not order the names
+        -- (`natOrdered` false: names equal up to leading zeros) the order among such names is sort.Sort's
+        -- business, not the model's: then the sorted lists are compared as multisets and the picks are
+        -- recomputed on the order the implementation produced.
+        let ord1 := natOrderedFast a
+        let ord3 := natOrderedFast (b ++ [x])
+        let fastOk := a.length > 6 ∨ (ord1 == natOrdered a ∧ ord3 == natOrdered (b ++ [x]))
+        let mSorted := if ord1 then natSort a else s1
+        let mSorted2 := if ord1 then natSort b else s2
+        let mSorted3 := if ord3 then natSort (b ++ [x]) else s3
+        let pk (l : List Bytes) (h : Nat) : String := match pick nextFloat l (UInt64.ofNat h) with | some s => hexEncode s | none => "err"
+        let mp1 := hashes.map fun h => let u := pk mSorted h; let v := pk mSorted2 h; if u == v then u else u ++ "/" ++ v
+        let mp3 := hashes.map fun h => pk mSorted3 h
+        let rk (l : List Bytes) : String := (renderKeys l).replace "~" "-"
+        let model := [rk mSorted, rk mSorted2, rk mSorted3, ",".intercalate mp1, ",".intercalate mp3]
+        let permOk := isPerm s1 a ∧ isPerm s2 b ∧ isPerm s3 (b ++ [x])
+        let diff := if !fastOk then "oracle:natOrderedFast≠natOrdered"
+          else if model == [s1S, s2S, s3S, p1S, p3S] ∧ permOk then "-" else "model=" ++ " ".intercalate model
         -- judge
         let p1 := p1S.splitOn ","
         let p3 := p3S.splitOn ","
         let appended := s3 == s1 ++ [x]
+        -- "the naturally sorted server list" is well defined when no two distinct names are equal in
+        -- natural order (same text up to the value of digit runs); only then is the order, and hence the
+        -- choice, required to be independent of the input order
+        let tie := a.any fun u => a.any fun v => u != v && specNatLe u v && specNatLe v u
         let bad : List String :=
           (if isPerm s1 a then [] else ["sorted-not-a-permutation-of-input"]) ++
           (if isPerm s3 (b ++ [x]) then [] else ["sorted-ext-not-a-permutation-of-input"]) ++
           (if sortedBy specNatLe s1 ∧ sortedBy specNatLe s3 then [] else ["not-in-natural-order"]) ++
-          (if s1 == s2 then [] else ["order-depends-on-input-order"]) ++
-          (if p1.any (fun p => p.contains '/') then ["choice-depends-on-input-order"] else []) ++
-          (if p1.all (fun p => p.contains '/' ∨ (s1.map hexEncode).contains p) then [] else ["pick-not-a-configured-server"]) ++
+          (if s1 == s2 ∨ tie then [] else ["order-depends-on-input-order"]) ++
+          (if p1.any (fun p => p.contains '/') ∧ !tie then ["choice-depends-on-input-order"] else []) ++
+          (if p1.all (fun p => (p.splitOn "/").all fun q => (s1.map hexEncode).contains q) then [] else ["pick-not-a-configured-server"]) ++
           (if p3.all (fun p => (s3.map hexEncode).contains p) then [] else ["pick-ext-not-a-configured-server"]) ++
-          (if appended ∧ !((p1.zip p3).all fun (p, q) => q == p ∨ q == hexEncode x) then ["append-moved-key-to-old-server"] else [])
+          (if appended ∧ !tie ∧ !((p1.zip p3).all fun (p, q) => q == p ∨ q == hexEncode x) then ["append-moved-key-to-old-server"] else [])
         let moved := (p1.zip p3).countP fun (p, q) => p != q
-        let tags := s!"pick n={if a.length ≤ 1 then "1" else if a.length ≤ 8 then "2-8" else if a.length ≤ 32 then "9-32" else "33-64"} append={if appended then "last" else "mid"} moved={min moved 2} unix={a.any (·.head? == some 47)}"
+        let tags := s!"pick n={if a.length ≤ 1 then "1" else if a.length ≤ 8 then "2-8" else if a.length ≤ 32 then "9-32" else "33-64"} append={if appended then "last" else "mid"} moved={min moved 2} unix={a.any (·.head? == some 47)} tie={tie}"
         (diff, if bad.isEmpty then "-" else ",".intercalate bad, tags)
       | _, _, _, _, _, _, _, _ => ("bad-input", "-", "-")
     | _ => ("bad-field1", "-", "-")
